@@ -31,6 +31,7 @@ import (
 	"log/syslog"
 	"os"
 	"runtime"
+	"sort"
 	"strings"
 
 	"github.com/danos/utils/tsort"
@@ -673,8 +674,32 @@ func (c *Compiler) ExpandModules() (err error) {
 	for _, module := range c.modules {
 		r := module.GetModule()
 		c.VerifyModuleIncludes(r, module.GetSubmodules())
-		for _, s := range module.GetSubmodules() {
-			c.ProcessSubmoduleIncludes(s, module.GetSubmodules())
+		// A submodule takes over the imports of the submodules it
+		// includes, as they are at that moment: process an included
+		// submodule before the one that includes it, and in an order
+		// that does not depend on map iteration, or what a chain of
+		// includes hands on differs from run to run.
+		subs := module.GetSubmodules()
+		subnames := make([]string, 0, len(subs))
+		for sn := range subs {
+			subnames = append(subnames, sn)
+		}
+		sort.Strings(subnames)
+		processed := make(map[string]bool)
+		var processSub func(sn string)
+		processSub = func(sn string) {
+			s, ok := subs[sn]
+			if !ok || processed[sn] {
+				return
+			}
+			processed[sn] = true
+			for _, i := range s.ChildrenByType(parse.NodeInclude) {
+				processSub(i.Name())
+			}
+			c.ProcessSubmoduleIncludes(s, subs)
+		}
+		for _, sn := range subnames {
+			processSub(sn)
 		}
 		c.ProcessModuleIncludes(r, module.GetSubmodules())
 	}
@@ -779,6 +804,10 @@ func (c *Compiler) VerifyModuleIncludes(m parse.Node, submodules map[string]pars
 	}
 	for _, s := range submodules {
 		for _, i := range s.ChildrenByType(parse.NodeInclude) {
+			if i.Name() == s.Name() {
+				// the shortest include cycle (not seen by the sort)
+				c.error(i, fmt.Errorf("submodule %s includes itself", s.Name()))
+			}
 			g.AddEdge(s.Name(), i.Name())
 		}
 	}
